@@ -26,6 +26,7 @@
 -/
 import DDProofs.ImageExample3
 import DDProofs.QuantCor
+import DDProofs.PreimageAny
 namespace DD
 open Std
 
@@ -493,6 +494,79 @@ example : (∀ fa, PreimagePost imgM 3 5 [(.lvl 0, .lvl 1)] [.lvl 1] fa [1]) ∧
       rw [imgM_den3, imgM_den5]
       simp [upd, e0', ha]
 
+/-- the preconditions of `preimage` WITHOUT "partners are neighbours": pairs of declared levels,
+keys disjoint from values, no level renamed to an undeclared name -/
+structure PreimagePreAny (m : Mgr) (rn : List (Key × Key)) : Prop where
+  nonempty : resolveRename m.tbl rn ≠ [] → 0 < m.nvars
+  noOverlap : renameOverlap (resolveRename m.tbl rn) = false
+  noName : badKeys (resolveRename m.tbl rn) = []
+  levels : ∀ p, p ∈ intPairs (resolveRename m.tbl rn) →
+    0 ≤ p.1 ∧ p.1 < (m.nvars : Int) ∧ 0 ≤ p.2 ∧ p.2 < (m.nvars : Int)
+
+/-- C13 (`preimage`, ANY variable order — repair of finding F4d): the hypotheses of
+`C13_preimage_partial` minus adjacency (no two keys with the same value; the target independent
+of every value of the renaming).  When the partners are neighbours the body runs the recursion
+`_image`; otherwise it renames the target (`_copy_bdd` with the full level map), conjoins
+(`ite(trans, r, FALSE)`) and quantifies.  Either way the result is
+`Q qvars. trans ∧ rename(target)`. -/
+theorem C13_preimage_any_order (m : Mgr) (hI : Inv m) (hoff : m.lastLen = none)
+    (hV : VarsBij m.tbl) (trans target : Int) (hu : m.tbl.Mem trans) (hv : m.tbl.Mem target)
+    (rn : List (Key × Key)) (qvars : List Key) (fa : Bool) (q : List Nat)
+    (hq : mapToLevelE m.tbl qvars = .ok q) (hpre : PreimagePreAny m rn)
+    (hinj : ∀ p p', p ∈ intPairs (resolveRename m.tbl rn) →
+      p' ∈ intPairs (resolveRename m.tbl rn) → p.2 = p'.2 → p.1 = p'.1)
+    (hind : ∀ p, p ∈ intPairs (resolveRename m.tbl rn) → ∀ l : Nat, p.2 = (l : Int) →
+      ¬ dependsOn m.tbl target l) :
+    PreimagePost m trans target rn qvars fa q :=
+  preimage_spec_any_order m hI hoff hV trans target hu hv rn qvars fa q hq hpre.nonempty
+    hpre.noOverlap hpre.noName hpre.levels hinj hind
+
+/-- C13 (`preimage`, some partners NOT neighbours): on this branch the FULL statement holds —
+the literal preconditions suffice; neither injectivity of the renaming nor independence of the
+target from the values is needed (findings F5 / F5b live in the recursion `_image`, which is
+only run when all partners are neighbours) -/
+theorem C13_preimage_not_neighbours (m : Mgr) (hI : Inv m) (hoff : m.lastLen = none)
+    (hV : VarsBij m.tbl) (trans target : Int) (hu : m.tbl.Mem trans) (hv : m.tbl.Mem target)
+    (rn : List (Key × Key)) (qvars : List Key) (fa : Bool) (q : List Nat)
+    (hq : mapToLevelE m.tbl qvars = .ok q) (hpre : PreimagePreAny m rn)
+    (hnadj : ¬ ∀ p, p ∈ intPairs (resolveRename m.tbl rn) → (p.1 - p.2).natAbs = 1) :
+    PreimagePost m trans target rn qvars fa q :=
+  preimage_spec_fallback m hI hoff hV trans target hu hv rn qvars fa q hq hpre.nonempty
+    hpre.noOverlap hpre.noName hpre.levels hnadj
+
+/-- non-vacuity (`C13_preimage_any_order`, `C13_preimage_not_neighbours`): order `a < b < c`;
+`preimage(TRUE, c, {c: a}, {a})` — levels `{2: 0}`, `|2 - 0| = 2`: not neighbours; the target
+`c` does not depend on `a` -/
+example : ∀ fa, PreimagePost imgM3 1 2 [(.lvl 2, .lvl 0)] [.lvl 0] fa [0] := by
+  intro fa
+  obtain ⟨hres, hip⟩ := C13_rename_levels imgM3.tbl [(2, 0)] (by simp)
+  simp only [List.map] at hres hip
+  have hpre : PreimagePreAny imgM3 [(.lvl 2, .lvl 0)] := by
+    refine ⟨fun _ => by rw [imgM3_nvars']; omega, by rw [hres]; decide, by rw [hres]; decide, ?_⟩
+    rw [hres, hip]; intro p hp; simp at hp; subst hp; rw [imgM3_nvars']; decide
+  have hnadj : ¬ ∀ p, p ∈ intPairs (resolveRename imgM3.tbl [(.lvl 2, .lvl 0)]) →
+      (p.1 - p.2).natAbs = 1 := by
+    rw [hres, hip]
+    intro h
+    have := h (2, 0) (by simp)
+    revert this
+    decide
+  have h1 := C13_preimage_not_neighbours imgM3 imgM3_inv rfl imgM3_varsBij 1 2 (mem_one _)
+    (imgM3_mem _ (by decide)) [(.lvl 2, .lvl 0)] [.lvl 0] fa [0] (by rfl) hpre hnadj
+  have h2 := C13_preimage_any_order imgM3 imgM3_inv rfl imgM3_varsBij 1 2 (mem_one _)
+    (imgM3_mem _ (by decide)) [(.lvl 2, .lvl 0)] [.lvl 0] fa [0] (by rfl) hpre
+    (by rw [hres, hip]; intro p p' hp hp' _; simp at hp hp'; rw [hp, hp'])
+    (by
+      rw [hres, hip]; intro p hp l hl; simp at hp; subst hp
+      simp only at hl
+      have : l = 0 := by omega
+      subst this
+      rintro ⟨a, hne⟩
+      apply hne
+      rw [imgM3_den2, imgM3_den2]
+      simp [upd])
+  exact h2
+
 /-- C13 (`preimage`), FULL statement — the same without the independence hypothesis.  It is
 FALSE of the code (`C13_preimage_statement_false`, finding F5); what is missing for a proof is
 not a lemma but a repair of `_image` (when the target depends on a rename target `x'` that is
@@ -550,7 +624,8 @@ theorem C13_preimage_statement_false : ¬ C13_preimage_statement := by
         (fun _ => by rw [imgMc_nvars']; omega) (by decide)
     have hfuel : 2 * (imgMc true).nvars + 4 = 8 := by rw [imgMc_nvars']
     have hbk : badKeys [(Key.lvl 0, Key.lvl 1)] = [] := by decide
-    simp only [hq', hres', hav, hpairs, hbk, hfuel, hrun]
+    have hnbr : renameNeighbors [(Key.lvl 0, Key.lvl 1)] = true := by decide
+    simp only [hq', hres', hav, hnbr, if_true, hpairs, hbk, hfuel, hrun]
   rw [hpre'] at he
   have hr : r' = r := by
     have := congrArg Prod.fst he
@@ -629,7 +704,8 @@ theorem C13_preimage_needs_injective :
         (fun _ => by rw [imgM3c_nvars']; omega) hov
     have hfuel : 2 * (imgM3c true).nvars + 4 = 10 := by rw [imgM3c_nvars']
     have hbk : badKeys [(Key.lvl 0, Key.lvl 1), (Key.lvl 2, Key.lvl 1)] = [] := by decide
-    simp only [hq', hres', hav, hpairs, hbk, hfuel, hrun]
+    have hnbr : renameNeighbors [(Key.lvl 0, Key.lvl 1), (Key.lvl 2, Key.lvl 1)] = true := by decide
+    simp only [hq', hres', hav, hnbr, if_true, hpairs, hbk, hfuel, hrun]
   rw [hpre'] at he
   have hr : r' = r := by
     have := congrArg Prod.fst he
